@@ -8,7 +8,7 @@ import cases as C  # noqa
 import corr  # noqa
 import efcommon as E  # noqa
 
-MODULES = ["InovesaModel.Props.C18", "InovesaModel.Props.Tie"]
+MODULES = ["InovesaModel.Props.C18", "InovesaModel.Props.TieEF"]
 LEVEL = "proof"
 
 
